@@ -25,7 +25,7 @@ def run(patch):
     name = os.path.basename(patch)[:-6]
     if allchecks:
         props = ['C%02d' % i for i in range(1, 21)]
-    elif name.startswith('ALL-'):
+    elif name.startswith('ALL-') or name.startswith('XFAIL-'):
         props = anchored(patch)
     else:
         props = name.split('-')[0].split('+')
@@ -47,7 +47,10 @@ def run(patch):
             if c.returncode != 0 or 'VIOLATION' in c.stdout:
                 obl = [l.strip()[:160] for l in c.stdout.splitlines() if l.startswith('  obligation')]
                 bad.append(p + ': ' + '; '.join(obl[:4]))
-        return name, 'FALSE-ALARM' if bad else 'QUIET', '%.0fs ' % (time.time()-t0) + ' || '.join(bad)
+        st = 'FALSE-ALARM' if bad else 'QUIET'
+        if name.startswith('XFAIL-'):
+            st = 'KNOWN-ALARM' if bad else 'QUIET'  # documented exception (DESIGN section 7)
+        return name, st, '%.0fs ' % (time.time()-t0) + ' || '.join(bad)
     finally:
         shutil.rmtree(d, ignore_errors=True)
         shutil.rmtree(out, ignore_errors=True)
@@ -56,7 +59,7 @@ nbad = 0
 with cf.ThreadPoolExecutor(jobs) as ex:
     for name, st, info in ex.map(run, patches):
         print('%-12s %-55s %s' % (st, name, info), flush=True)
-        if st != 'QUIET':
+        if st not in ('QUIET', 'KNOWN-ALARM'):
             nbad += 1
 print('%d benign edits, %d alarms' % (len(patches), nbad))
 sys.exit(1 if nbad else 0)
